@@ -186,6 +186,10 @@ def run_unit(unit, seed, tier, timeout):
     return ops, mod, None
 
 
+# ops whose model is stated on a restricted alphabet and answers "outside" elsewhere
+MODEL_ALPHABET_OPS = {"convert_case"}
+
+
 def nontrivial(op, rec):
     """an op is non-trivial when the implementation did something beyond the default/none path"""
     r = rec.get("r")
@@ -416,6 +420,10 @@ def main():
                     m = json.loads(lm)
                 except Exception:
                     m = {"driver_error": lm[:200]}
+                if m == "outside" and rec["op"] in MODEL_ALPHABET_OPS:
+                    # the input lies outside the alphabet the model is stated on: skipped, not judged
+                    stats["model_outside"] = stats.get("model_outside", 0) + 1
+                    continue
                 if m != rec["r"]:
                     dis += 1
                     if unit not in first_disagreement:
@@ -491,6 +499,7 @@ def main():
             "hypothesis_measurements": stats.get("info", {}),
             "known_finding_hits": known_hits,
             "model_disagreements": stats["model_disagreements"],
+            "model_outside_alphabet_skipped": stats.get("model_outside", 0),
             "samples": samples or [{"note": "no sample captured"}],
             "exhaustive": False,
             "seeds": seeds_used,
